@@ -2,13 +2,16 @@
 import rpcflow
 
 SUB = "c10"
-MODULES = ["Mtv.Props.C10", "Mtv.Props.ClientImpl"]
+MODULES = ["Mtv.Props.C10", "Mtv.Props.ClientImpl", "Mtv.Props.C10Life"]
 THEOREMS = [
     "Mtv.Client.genId_mult4",
     "Mtv.Client.genId_time",
     "Mtv.Client.genId_strict",
     "Mtv.Client.nextId_increasing",
     "Mtv.Client.wire_ordered",
+    "Mtv.Client.Life.wire_ordered_across_connections",
+    "Mtv.Client.Life.seq_parity_across_connections",
+    "Mtv.Client.Life.run_machine_reachable",
     "Mtv.Client.seq_parity",
     "Mtv.Client.send_with_nextId_enabled",
     "Mtv.Client.every_content_message_acked",
